@@ -138,6 +138,44 @@ async def main_async():
             shutil.rmtree(root, ignore_errors=True)
         if len(failures) > 200:
             break
+    # ---- the model name may be an Enum member: the key is its *value*
+    import enum
+
+    class ModelsV1(enum.Enum):
+        SCORING = 'model'
+
+    class ModelsV2(enum.Enum):
+        SCORING = 'model-v2'
+
+    class ECtx:
+        def __init__(self, model_name, pid):
+            self.model_name, self.pipeline_id = model_name, pid
+    for fmt in FORMATS:
+        n += 1
+        root = tempfile.mkdtemp(prefix='pyvc_fs_')
+        try:
+            s_enum = FileSystemArtifactStore(ECtx(ModelsV1.SCORING, 'pipe0'), root)
+            s_str = FileSystemArtifactStore(ECtx('model', 'pipe0'), root)
+            s_other = FileSystemArtifactStore(ECtx(ModelsV2.SCORING, 'pipe0'), root)
+            await s_enum.save('n', {'k': 1}, fmt)
+            try:
+                got = await s_str.load('n')
+            except BaseException as e:   # noqa
+                got = f'{type(e).__name__}'
+            if got != {'k': 1}:
+                failures.append(dict(property='C18', template='filesystem store', case=f'save under Enum model name (value "model"), load under the string "model" ({fmt.value})',
+                                     observed=repr(got), expected="{'k': 1}: the key is the model name, i.e. the member's value"))
+            try:
+                await s_other.load('n')
+                failures.append(dict(property='C18', template='filesystem store', case=f'two Enum classes with the same member name, different values ({fmt.value})',
+                                     observed='the other model sees the value', expected='ArtifactDoesNotExist (distinct keys never alias)'))
+            except ArtifactDoesNotExist:
+                pass
+            except BaseException as e:   # noqa
+                failures.append(dict(property='C18', template='filesystem store', case=f'two Enum classes, same member name ({fmt.value})',
+                                     observed=type(e).__name__, expected='ArtifactDoesNotExist'))
+        finally:
+            shutil.rmtree(root, ignore_errors=True)
     return n, failures
 
 
